@@ -279,4 +279,22 @@ EXTRA = dict(assumptions=["jax.lax.scan / vmap fold and batch the verified bodie
 
 
 def check(tier, seed):
-    return check_property("C12", UNITS, tier, seed, extra=EXTRA)
+    from pyvc import bounded
+    n = 24 if tier == "quick" else 200
+    res = bounded.run_native("c12_generate.py", ["--n", str(n), "--seed", str(seed)])
+    lines, ev, err = bounded.report("C12", "generated and augmented graphs checked vertex by vertex and edge by edge", res, "c12_generate.py")
+    extra = dict(EXTRA)
+    extra["bounded"] = [dict(ev, bound=f"{n} random node sets (2-4 nodes, rates 2-20 Hz, deterministic / normal computation and communication delays, trainable connections, skip, windows, 1-3 episodes, "
+                                       "a third of them generated in two stages through augment_graphs): first vertex at the phase, spacing >= period, no overlap, nothing ends after the horizon, "
+                                       "receive >= sender end, every message assigned to the first step starting at / strictly after its arrival, edges forward in time, augment keeps existing arrays bit for bit")]
+    for l in ev.get("known_finding_lines", []):
+        print(l)
+    code = check_property("C12", UNITS, tier, seed, extra=extra)
+    if lines:
+        for l in lines:
+            print(l)
+        return 1
+    if err and code == 0:
+        print(f"ERROR property=C12 bounded stand-in failed to run: {err[-300:]}")
+        return 3
+    return code
